@@ -47,7 +47,14 @@ RULE = ("seeded random metadata worlds (1-3 sources, 1-3 SPs, 0-2 IdPs, 1-3 endp
         "version): all operations that make sense on either version (stratified by shape) on both entities interleaved, the "
         "entities swap their metadata through Entity.reload_metadata, everything again, a refresh that fails (6 kinds of bad "
         "configuration), a sample, back to the first version, a sample; each step is judged against the metadata in force "
-        "for the entity that handled it. non-trivial = distinct (operation kind, input classes, outcome kind); for a "
+        "for the entity that handled it. Round 7 (own generator): 6 (thorough 18) worlds with an IdP are copied with STRAY "
+        "ResponseLocation attributes on their SingleSignOnService elements (kinds in turn: other URL on the host, foreign "
+        "host, the Location itself, the Location of another registered endpoint, padded with XML white space, absent) and "
+        "more ResponseLocations on the other IdP-role services; for every IdP pick_binding(single_sign_on_service) over 10 "
+        "caller binding lists (none, SOAP = the ECP flow, POST, Redirect, PAOS, Artifact, pairs, bogus first) x entity type, "
+        "SLO / MNI picks, _sso_location over 5 bindings, negotiate / authenticate / logout; 2 (6) SP-side sequences in which "
+        "the plain and the stray version swap. Every outcome of an operation aimed at a named entity is also judged against "
+        "the SERVED metadata (the first source that has the entityID). non-trivial = distinct (operation kind, input classes, outcome kind); for a "
         "sequence (role, refresh kind, set of outcome changes across a refresh)")
 def source2_items():
     """What translator v2 (harness/py2coq2.py) re-translates from the source text on every run -> coq/gen/C08Src2.v;
@@ -177,10 +184,21 @@ SSHORT = {"assertion_consumer_service": "sACS", "single_logout_service": "sSLO",
           "single_sign_on_service": "sSSO"}
 RSHORT = {"spsso_descriptor": "rSP", "idpsso_descriptor": "rIDP"}
 TAG = {"assertion_consumer_service": "AssertionConsumerService", "single_logout_service": "SingleLogoutService",
-       "manage_name_id_service": "ManageNameIDService", "single_sign_on_service": "SingleSignOnService"}
+       "manage_name_id_service": "ManageNameIDService", "single_sign_on_service": "SingleSignOnService",
+       "artifact_resolution_service": "ArtifactResolutionService", "name_id_mapping_service": "NameIDMappingService"}
+# round 7: the two other services that must not have a ResponseLocation; rendered only by the stray-ResponseLocation
+# worlds (kept out of SSHORT: section C draws from list(SSHORT))
+SSHORT7 = {"artifact_resolution_service": "S_ARS", "name_id_mapping_service": "S_NIM"}
+
+
+def sshort(svc):
+    return SSHORT.get(svc) or SSHORT7[svc]
+
+
 # schema order of the endpoint elements inside a role descriptor
 SP_ORDER = ["single_logout_service", "manage_name_id_service", "assertion_consumer_service"]
-IDP_ORDER = ["single_logout_service", "manage_name_id_service", "single_sign_on_service"]
+IDP_ORDER = ["artifact_resolution_service", "single_logout_service", "manage_name_id_service", "single_sign_on_service",
+             "name_id_mapping_service"]
 
 _SRPA = [S, R, P, A]
 PREFS = {
@@ -681,6 +699,20 @@ def generate(ctx):
             w2 = refresh(sub3, w, kind, 1000 + len(versions))
             versions.append(w2)
             seqs.extend(sequence_cases(sub3, w, w2, kind, thorough))
+    # ---- strengthening round 7: attributes the schema allows but the metadata specification forbids.  A
+    # SingleSignOnService MUST NOT carry a ResponseLocation (saml-metadata 2.4.3; mdstore.response_locations drops it):
+    # the worlds above never render one, so the exclusion was dead code for the generator.  Own PRNG again.
+    sub7 = random.Random(rng.getrandbits(64))
+    strays = []
+    withidp = [w for w in worlds + xworlds if ids_with(w, "idpsso_descriptor")]
+    for j, w in enumerate(withidp[:: max(1, len(withidp) // (18 if thorough else 6))][: (18 if thorough else 6)]):
+        w7 = stray_response_world(sub7, w, 3000 + j)
+        strays.append(w7)
+        cases.extend(stray_response_cases(sub7, w7))
+        if j < (6 if thorough else 2):
+            # long-lived entities: the plain version and the one with the stray attributes swap
+            seqs.extend(c for c in sequence_cases(sub7, w, w7, "stray-response", thorough) if c["op"]["role"] == "sp")
+    versions = versions + strays
     stride = max(1, len(cases) // max(1, len(seqs)))
     for i, c in enumerate(seqs):
         cases.insert(min(len(cases), i * (stride + 1)), c)
@@ -740,6 +772,89 @@ def neighbourhood_cases(rng, w, shaped, thorough):
                 bindings = [] if rng.random() < 0.7 else rng.choice(CALLER_BINDINGS)
                 op = answer_op("AuthnRequest", sp, u, idx, pb, bindings, none_arg=rng.random() < 0.5)
                 out.append(mk(w, op, "authn-nb:" + un))
+    return out
+
+
+# ---- stray ResponseLocation attributes (strengthening round 7)
+STRAY_KINDS = ["differs", "evil", "same", "other-endpoint", "padded", "absent"]
+PICK_BINDINGS = [[], [S], [P], [R], [O], [A], [R, P], [S, P], [P, S], [BOGUS, R, P]]
+
+
+def stray_response_world(rng, w, wid):
+    """a copy of w in which the SingleSignOnService elements carry a ResponseLocation (the kinds in turn, starting at a
+    random one: another URL on the host, a URL on a foreign host, the Location itself, the Location of another
+    registered endpoint, XML white space around it, none), and the other services of the IdP roles mostly one too"""
+    import copy
+
+    w7 = copy.deepcopy(w)
+    w7["wid"] = wid
+    n = rng.randrange(len(STRAY_KINDS))
+    for x in all_entities(w7):
+        for d in x["descs"]:
+            if d["role"] != "idpsso_descriptor":
+                continue
+            host0 = x["id"].split("/")[2]
+            for j, b in enumerate(rng.choice([[S], [S, S], [S, P], []])):
+                d["eps"].append(("artifact_resolution_service",
+                                 {"b": b, "l": "https://%s/ars/%d" % (host0, j), "i": str(j), "pad": False,
+                                  "r": rng.choice([None, "https://%s/ars/stray%d" % (host0, j), "https://evil.example.com/ars"])}))
+            for j, b in enumerate(rng.choice([[S], [S, R], [P], []])):
+                d["eps"].append(("name_id_mapping_service",
+                                 {"b": b, "l": "https://%s/nim/%d" % (host0, j), "i": None, "pad": False,
+                                  "r": rng.choice([None, "https://%s/nim/stray%d" % (host0, j), "https://evil.example.com/nim"])}))
+            for svc, e in d["eps"]:
+                host = e["l"].split("/")[2]
+                if svc in SSHORT7:
+                    continue
+                if svc != "single_sign_on_service":
+                    if e["r"] is None and rng.random() < 0.5:
+                        e["r"] = "https://%s/%s/resp-x%d" % (host, svc[:3], n)
+                    continue
+                kind = STRAY_KINDS[n % len(STRAY_KINDS)]
+                n += 1
+                if kind == "differs":
+                    e["r"] = "https://%s/sso/stray%d" % (host, n)
+                elif kind == "evil":
+                    e["r"] = "https://evil.example.com/sso/%d" % n
+                elif kind == "same":
+                    e["r"] = e["l"]
+                elif kind == "other-endpoint":
+                    e["r"] = rng.choice(w7["pool"]) if w7["pool"] else e["l"] + "x"
+                elif kind == "padded":
+                    e["r"] = "https://%s/sso/stray%d" % (host, n)
+                    e["pad"] = True
+                else:
+                    e["r"] = None
+    return w7
+
+
+def stray_response_cases(rng, w):
+    """every way the SP side (and pick_binding of either entity type) chooses a sign-on endpoint of every IdP"""
+    out = []
+    idps = ids_with(w, "idpsso_descriptor")
+    for e in idps:
+        for bs in PICK_BINDINGS:
+            for etype in ("sp", "idp"):
+                op = {"k": "pick", "svc": "single_sign_on_service", "bindings": bs, "descr": rng.choice(["", "", "idpsso", "spsso"]),
+                      "eid": e, "etype": etype, "prefs": rng.choice(["default", "alt", "noacs"])}
+                out.append(mk(w, op, "pick:stray-response"))
+        for svc in ("single_logout_service", "manage_name_id_service"):
+            op = {"k": "pick", "svc": svc, "bindings": rng.choice(PICK_BINDINGS), "descr": "idpsso", "eid": e,
+                  "etype": "sp", "prefs": "default"}
+            out.append(mk(w, op, "pick:stray-response"))
+        # the other two services without ResponseLocation (no configured preference: the caller names the bindings;
+        # MetadataStore.name_id_mapping_service reads the IdP role whatever typ says, so the role is given as idpsso)
+        for svc in SSHORT7:
+            for bs in ([S], [P], [R, S], [S, P]):
+                op = {"k": "pick", "svc": svc, "bindings": bs, "descr": "idpsso", "eid": e, "etype": "sp",
+                      "prefs": "default"}
+                out.append(mk(w, op, "pick:stray-response"))
+        for b in (R, P, S, A, O):
+            out.append(mk(w, {"k": "sso", "eid": e, "binding": b}, "sso"))
+        out.append(mk(w, {"k": "negotiate", "eid": e, "binding": rng.choice([None, "", P, S])}, "negotiate"))
+        out.append(mk(w, {"k": "authenticate", "eid": e, "binding": rng.choice([R, P])}, "authenticate"))
+        out.append(mk(w, {"k": "logout", "eids": [e], "expected": rng.choice([None, R, P, S]), "prefs": "default"}, "logout"))
+    out.append(mk(w, {"k": "negotiate", "eid": None, "binding": None}, "negotiate"))
     return out
 
 
@@ -1276,7 +1391,7 @@ def coq_world(w):
         for e in s["ents"]:
             descs = []
             for d in e["descs"]:
-                eps = [(Raw(SSHORT[svc]), coq_ep(x)) for svc, x in d["eps"]]
+                eps = [(Raw(sshort(svc)), coq_ep(x)) for svc, x in d["eps"]]
                 disco = [(cb(b), l) for b, l in d["disco"]]
                 descs.append((Raw(RSHORT[d["role"]]), Raw("(Desc %s %s)" % (cq(eps), cq(disco)))))
             ents.append((e["id"], descs))
@@ -1347,7 +1462,7 @@ def coq_op(op):
         return "(OpAnswer %s %s %s %s %s)" % (cq(op["etype"]), coq_prefs(op["prefs"]), req,
                                               cq([cb(b) for b in op["bindings"]]), cq(op["descr"]))
     if k == "pick":
-        svc = Raw(SSHORT[op["svc"]])
+        svc = Raw(sshort(op["svc"]))
         return "(OpPick %s %s %s %s %s %s)" % (cq(op["etype"]), coq_prefs(op["prefs"]), cq(svc),
                                                cq([cb(b) for b in op["bindings"]]), cq(op["descr"]), cq(op["eid"]))
     if k == "sso":
